@@ -228,6 +228,56 @@ fn histories(ctx: &Ctx, acc: &mut Acc, l: L, depth: usize) {
     acc.count("iterator_merge_orders", orders);
 }
 
+/// Histories across languages on the SAME texts with different thresholds: a cache or global keyed
+/// too coarsely (text only, first language, first threshold) shows up here.
+fn cross_language_histories(ctx: &Ctx, acc: &mut Acc, depth: usize) {
+    const TEXTS: [&str; 2] = ["zero un due tres six elf mil million nove tien", "xyzzy six , elf plugh mil e un o neuf"];
+    let interps: Vec<(L, Language)> = langs::ALL.iter().map(|l| (*l, l.facade())).collect();
+    // call = (language index, kind 0..4, text index)
+    let ncalls = interps.len() * 4 * TEXTS.len();
+    let run = |lang: &Language, kind: usize, text: &str| -> String {
+        guard(|| match kind {
+            0 => format!("{:?}", text.split(' ').map(|w| text2digits(w, lang).ok()).collect::<Vec<_>>()),
+            1 => replace_numbers_in_text(text, lang, 0.0),
+            2 => replace_numbers_in_text(text, lang, 10.0),
+            _ => {
+                let t = toks_pulled(text);
+                occs_str(find_numbers(t.iter(), lang, 5.0))
+            }
+        })
+        .unwrap_or_else(|p| p)
+    };
+    let decode = |c: usize| (c / (4 * TEXTS.len()), (c / TEXTS.len()) % 4, c % TEXTS.len());
+    let expected: Vec<String> = (0..ncalls)
+        .map(|c| {
+            let (li, k, ti) = decode(c);
+            run(&interps[li].0.facade(), k, TEXTS[ti])
+        })
+        .collect();
+    for first in 0..ncalls {
+        for_each_seq(ncalls, depth, first, &mut |idx| {
+            acc.states += 1;
+            for (step, &c) in idx.iter().enumerate() {
+                let (li, k, ti) = decode(c);
+                acc.transitions += 1;
+                acc.traces += 1;
+                let got = run(&interps[li].1, k, TEXTS[ti]);
+                if got != expected[c] {
+                    ctx.report(acc, Violation {
+                        lang: interps[li].0.code().into(),
+                        entry: "history".into(),
+                        input: idx[..=step].iter().map(|&x| { let (a, b, t) = decode(x); format!("{}.call{}(text{})", interps[a].0.code(), b, t) }).collect::<Vec<_>>().join("; "),
+                        threshold: None,
+                        clause: "result(c | history over several languages and thresholds) = result(c | fresh interpreter)".into(),
+                        expected: expected[c].clone(),
+                        observed: got,
+                    });
+                }
+            }
+        });
+    }
+}
+
 fn acc_step<A: Iterator<Item = text2num::Occurence>, B: Iterator<Item = text2num::Occurence>>(ra: &mut Vec<String>, rb: &mut Vec<String>, first: bool, a: &mut A, b: &mut B) {
     if first {
         if let Some(o) = a.next() {
@@ -346,6 +396,7 @@ pub fn run(tier: Tier) -> i32 {
     for l in langs::ALL {
         histories(&ctx, &mut acc, l, tier.pick(2, 3));
     }
+    cross_language_histories(&ctx, &mut acc, tier.pick(2, 3));
     // 2. schedules (sequential over languages: the scheduler owns the threads)
     for l in langs::ALL {
         schedules(&ctx, &mut acc, l, tier);
@@ -354,7 +405,7 @@ pub fn run(tier: Tier) -> i32 {
     acc.states += 1;
     acc.traces += 1;
     let probe = Command::new("cargo")
-        .args(["check", "--offline", "--quiet", "--manifest-path", &format!("{VERIF_ROOT}/probes/sendsync/Cargo.toml")])
+        .args(["check", "--offline", "--quiet", "--manifest-path", &format!("{}/probes/sendsync/Cargo.toml", verif_root())])
         .env("CARGO_NET_OFFLINE", "true")
         .stdin(Stdio::null())
         .output();
